@@ -415,7 +415,7 @@ func main() {
 			if err == nil {
 				return false
 			}
-			var crlNetworkErr *verify.CRLUnavailableErr
+			var crlNetworkErr verify.CRLUnavailableErr
 			var collateralNetworkErr *trust.AttestationRecreationErr
 			if errors.As(err, &crlNetworkErr) || errors.As(err, &collateralNetworkErr) {
 				exitCode = exitNetwork
